@@ -1,7 +1,7 @@
 (* C10 — Rewards: fees go to the proposer, awards are minted exactly once. Statements only. *)
 From Coq Require Import List ZArith NArith Bool.
 From PM Require Import Base.Bytes Store.KV Store.MergeProofs Num.IntModel Num.DecModel Num.DecProofs
-  App.Model App.BankProofs App.TxProofs App.KeyProofs App.RewardProofs App.Examples.
+  App.Model App.BankProofs App.TxProofs App.KeyProofs App.RewardProofs App.AwardProofs App.Examples.
 Import ListNotations.
 Local Open Scope Z_scope.
 
@@ -27,8 +27,22 @@ Theorem C10_fees_go_to_the_proposer_in_full s p s' : bank_ok s ->
   | None => bal s' p = bal s p /\ bal s' (m_pos (ma s)) = bal s (m_pos (ma s)) + bal s (m_fee (ma s))
   end.
 Proof. exact (reward_from_fees_exact s p s'). Qed.
+(* the whole queue at BeginBlock: every address receives exactly what was queued for it, newly minted; the supply grows
+   by exactly the sum of the queue; nobody else's balance moves; the queue is empty afterwards (App/AwardProofs.v) *)
+Theorem C10_every_queued_award_is_minted_exactly_once s : bank_ok s -> (forall a x, In (a, x) (awards s) -> 0 <= x) ->
+  let s' := mint_awards s in
+  awards s' = [] /\ bank_ok s' /\ supply s' = supply s + qtotal (awards s) /\
+  forall b, bal s' b = bal s b + queued (awards s) b.
+Proof. exact (mint_awards_exact s). Qed.
+Theorem C10_queued_is_the_map_entry (m : amap Z) b : dsorted true m -> queued m b = match aget m b with Some x => x | None => 0 end.
+Proof. exact (queued_map m b). Qed.
+(* awards queued for the same address during a block add up *)
+Theorem C10_awards_accumulate s a x : dsorted true (awards s) ->
+  forall b, getz (awards (k_award s a x)) b = getz (awards s) b + (if beqb a b then x else 0).
+Proof. exact (k_award_accumulates s a x). Qed.
 Example C10_ex : exists s, ex_final = Some s /\ aget (accts s) A3 = Some 47.
 Proof. exact ex_award_paid. Qed.
 Print Assumptions C10_award_queue_emptied.
 Print Assumptions C10_one_award_mints_exactly.
 Print Assumptions C10_fees_go_to_the_proposer_in_full.
+Print Assumptions C10_every_queued_award_is_minted_exactly_once.
